@@ -181,7 +181,8 @@ def t_prologue(with_warmup):
         router = Obj(None, {'initiate': Builtin('router.initiate', stub('router.initiate'))}, name='router')
         cstate = Obj(None, {'init_storage': Builtin('init_storage', stub('init_storage'))})
         store = Obj(None, {'candles': cstate, 'reset': Builtin('store.reset', stub('store.reset'))}, name='store')
-        jc = {'app': {'considering_candles': (('Sandbox', 'BTC-USDT'),), 'trading_mode': 'something-else'}}
+        jc = {'app': {'considering_candles': (('Sandbox', 'BTC-USDT'),), 'trading_mode': 'something-else', 'considering_timeframes': ('1m', '5m', '15m'),
+                      'considering_symbols': ('BTC-USDT',), 'trading_timeframes': ('5m',), 'trading_symbols': ('BTC-USDT',)}}
         h.ctx.cfg.globals['jesse.routes.router'] = lambda i: router
         h.ctx.cfg.globals['jesse.store.store'] = lambda i: store
         h.ctx.cfg.globals['jesse.config.config'] = lambda i: jc
@@ -229,10 +230,16 @@ def t_prologue(with_warmup):
         same = (cfg == snap[0] and [dict(r) for r in routes] == snap[1] and [dict(r) for r in data_routes] == snap[2]
                 and a.fn is snap[4] and candles['Sandbox-BTC-USDT'] == snap[5])
         h.prove(same, 'prologue.arguments-are-left-unmodified')
+        inj = [c for c in calls if c[0] == 'inject_warmup']
         if with_warmup:
-            inj = [c for c in calls if c[0] == 'inject_warmup']
             h.prove(len(inj) == 1 and inj[0][1][0] is not wa and names.index('inject_warmup') < isim,
                     'prologue.warm-up-candles-injected-from-a-copy-before-simulating')
+            # no look-ahead through the prologue (shared with C01): what is stored before the simulation starts is the warm-up
+            # argument, never a row of the candles that are about to be simulated
+            h.prove(len(inj) == 1 and h.interp.lib._np_array_equal(h.interp, [inj[0][1][0], wa], {}),
+                    'prologue.only-the-warm-up-argument-is-stored-before-the-simulation')
+        else:
+            h.prove(inj == [], 'prologue.only-the-warm-up-argument-is-stored-before-the-simulation', {'injected_calls': len(inj)})
     return t
 
 
